@@ -111,6 +111,7 @@ type CWorldCfg struct {
 	AutoAnswer     bool   // server answers every request properly as soon as it sees it
 	FirstReady     uint64 // first Ready uses this id instead of NextMessageID()
 	RequestTimeout time.Duration
+	MessageTimeout time.Duration `json:",omitempty"` // message channel time-out (default 30 s)
 	MaxPoints      int64
 }
 
@@ -186,6 +187,9 @@ func NewCWorld(cfg CWorldCfg) *CWorld {
 	}
 	cc := client.NewConfig(serverAddr, w.serverKey.PublicKey(), w.clientKey, 100, cfg.ConnType)
 	cc.RequestTimeout = config.NewDuration(cfg.RequestTimeout)
+	if cfg.MessageTimeout > 0 {
+		cc.MessageChannelTimeout = config.NewDuration(cfg.MessageTimeout)
+	}
 	cc.RetryDelay = config.NewDuration(2 * time.Second)
 	cc.RetryError = config.NewDuration(10 * time.Minute)
 	w.ccfg = *cc
